@@ -67,8 +67,13 @@ func doRemove(c *core.Ctx, rev bool, names []string, pre bool, n *core.N) *core.
 			pre = false
 		}
 	}
-	head := []string{b01(rev), core.StrList(names), b01(pre), n.Dump()}
-	emit := func(rest ...string) { c.Emit("C06.remove", append(head, rest...)...) }
+	return observe(c, "C06.remove", []string{b01(rev), core.StrList(names), b01(pre), n.Dump()}, t, n, rev, names)
+}
+
+// observe calls RemoveTips(rev, names...) on the real tree t (whose α dump is n), reads the raw answers
+// of the implementation afterwards and emits the case line `op head… outcome after index-answers…`.
+func observe(c *core.Ctx, op string, head []string, t *tree.Tree, n *core.N, rev bool, names []string) *core.N {
+	emit := func(rest ...string) { c.Emit(op, append(head, rest...)...) }
 	var rerr error
 	if p, msg := core.Safe(func() { rerr = t.RemoveTips(rev, names...) }); p {
 		emit("panic:"+core.Escape(msg), "", "", "", "-1", "", "", "", "", "")
@@ -188,6 +193,8 @@ func Replay(c *core.Ctx, lines []string) {
 				names = append(names, u)
 			}
 			doRemove(c, f[1] == "1", names, f[3] == "1", n)
+		case f[0] == "C06.stale" && len(f) >= 5:
+			replayStale(c, f)
 		case f[0] == "C06.cli" && len(f) >= 8:
 			replayCLI(c, f)
 		case f[0] == "C06.tipfile" && len(f) >= 3:
@@ -391,7 +398,7 @@ func genTree(c *core.Ctx) (*core.N, string) {
 	if !c.Quick() && g.Chance(0.08) {
 		o.MaxTips = 45 // larger trees in the thorough tier
 	}
-	lookAlike := g.Chance(0.06)
+	lookAlike := g.Chance(0.09)
 	if lookAlike {
 		o.FunnyNames = true // blanks, quotes, numeric-looking and non-ASCII tip names
 	}
@@ -436,7 +443,7 @@ func genTree(c *core.Ctx) (*core.N, string) {
 			}
 		}
 	}
-	if g.Chance(0.04) { // the root itself is a tip
+	if g.Chance(0.06) { // the root itself is a tip
 		n.E = core.NewE()
 		n.E.Len = g.Length(&core.TreeOpts{Lengths: 3, LenDenom: 8, LenMax: 40})
 		n = &core.N{Name: "rt", Kids: []*core.N{n}}
@@ -459,6 +466,10 @@ func libCase(c *core.Ctx) {
 				rm = append(rm, chain)
 			}
 		}
+		// a root that is itself a tip goes too (hypothesis branch roottip-removed of the theorems)
+		if step == 0 && len(n.Kids) == 1 && len(n.TipNames())-len(rm) > 3 && g.Chance(0.5) {
+			rm = append(rm, n.Name)
+		}
 		rev, names := request(g, n, rm)
 		after := doRemove(c, rev, names, g.Chance(0.5), n)
 		// re-anchored history: prune the result again (parent positions produced by the code itself)
@@ -467,6 +478,58 @@ func libCase(c *core.Ctx) {
 		}
 		n = after
 	}
+}
+
+// rootLossCase: a ROOTED tree whose root has a tip child x and a multifurcating child N (>= 3 children).
+// x goes together with so many children of N that exactly two are left: the root disappears (case 1b),
+// N takes its place and must then be KEPT with two children (the rootedness is the one read before the
+// loop, not the one of the tree under surgery).  x stands before or after N, so that it is removed first
+// or last; a further variant removes x alone or leaves three children.
+func rootLossCase(c *core.Ctx) {
+	g := c.G
+	o := opts(g)
+	o.Singles = 0
+	o.MinTips, o.MaxTips = 5, 12
+	var n *core.N
+	for try := 0; try < 30; try++ {
+		n, _ = g.Tree(o)
+		if len(n.Kids) >= 3 {
+			break
+		}
+	}
+	if len(n.Kids) < 3 {
+		return
+	}
+	lo := &core.TreeOpts{Lengths: o.Lengths, LenDenom: 8, LenMax: 40}
+	x := &core.N{Name: "xr", E: core.NewE()}
+	x.E.Len = g.Length(lo)
+	n.E = core.NewE()
+	n.E.Len = g.Length(lo)
+	root := &core.N{Kids: []*core.N{x, n}}
+	if g.Chance(0.4) {
+		root.Kids = []*core.N{n, x}
+	}
+	core.NumberEdges(root)
+	perm := g.R.Perm(len(n.Kids))
+	keepKids := 2
+	if g.Chance(0.2) {
+		keepKids = 3
+	}
+	rm := []string{"xr"}
+	if !g.Chance(0.1) {
+		for _, j := range perm[keepKids:] {
+			rm = append(rm, n.Kids[j].Leaves()...)
+		}
+	}
+	if len(root.TipNames())-len(rm) < 3 {
+		// too few tips would be left: keep one more child
+		rm = []string{"xr"}
+		for _, j := range perm[3:] {
+			rm = append(rm, n.Kids[j].Leaves()...)
+		}
+	}
+	rev, names := request(g, root, rm)
+	doRemove(c, rev, names, g.Chance(0.5), root)
 }
 
 // sweep: every subset of the tips that leaves at least 3 of them.
@@ -514,8 +577,14 @@ func Run(c *core.Ctx) {
 	for i := 0; i < c.Scale(6, 40); i++ {
 		sweep(c, c.Scale(6, 9))
 	}
+	for i := 0; i < c.Scale(120, 4000); i++ {
+		staleCase(c)
+	}
+	for i := 0; i < c.Scale(40, 1500); i++ {
+		rootLossCase(c)
+	}
 	if c.Gotree != "" {
-		for i := 0; i < c.Scale(40, 800); i++ {
+		for i := 0; i < c.Scale(90, 1200); i++ {
 			cliCase(c)
 		}
 		for i := 0; i < c.Scale(25, 400); i++ {
